@@ -455,6 +455,66 @@ fn dump_doc(idx: &str, flags: &str, input: &str, opt: ParsingOptions, doc: &Docu
             }
             writeln!(o, "{}", s).unwrap();
         }
+        // LB: answers must not depend on hidden state (what was asked before, from which buffer).  Counts anomalies:
+        //  (1) the same query asked through a String buffer that is then overwritten in place with another string of
+        //      the same length must follow the buffer's CONTENT; (2) a second pass in reverse node order and
+        //  (3) alternating queries on far-apart nodes (ids i and i + 65536, i + 256) must repeat the first pass.
+        let mut anomalies = 0usize;
+        let els: Vec<Node> = doc.descendants().filter(|n| n.is_element()).collect();
+        let first: Vec<(Option<&str>, Option<&str>)> = els.iter().map(|e| (e.default_namespace(), e.lookup_namespace_uri(None))).collect();
+        for (k, e) in els.iter().enumerate().rev() {
+            if (e.default_namespace(), e.lookup_namespace_uri(None)) != first[k] {
+                anomalies += 1;
+            }
+        }
+        for gap in [256usize, 65536] {
+            for k in 0..els.len().saturating_sub(gap).min(64) {
+                let (a, b) = (&els[k], &els[k + gap]);
+                for _ in 0..2 {
+                    if (a.default_namespace(), a.lookup_namespace_uri(None)) != first[k] || (b.default_namespace(), b.lookup_namespace_uri(None)) != first[k + gap] {
+                        anomalies += 1;
+                    }
+                }
+            }
+        }
+        for e in els.iter().take(64) {
+            let tn = e.tag_name();
+            if let Some(uri) = tn.namespace() {
+                if !uri.is_empty() && uri.is_ascii() {
+                    let mut buf = String::from(uri);
+                    let r1 = e.has_tag_name((buf.as_str(), tn.name()));
+                    // overwrite the buffer in place: same address, same length, different content
+                    let last = buf.pop().unwrap();
+                    buf.push(if last == 'x' { 'y' } else { 'x' });
+                    let r2 = e.has_tag_name((buf.as_str(), tn.name()));
+                    if !r1 || r2 {
+                        anomalies += 1;
+                    }
+                }
+            }
+            for a in e.attributes() {
+                if let Some(uri) = a.namespace() {
+                    if !uri.is_empty() && uri.is_ascii() {
+                        let mut buf = String::from(uri);
+                        let r1 = e.attribute((buf.as_str(), a.name())).is_some();
+                        let last = buf.pop().unwrap();
+                        buf.push(if last == 'x' { 'y' } else { 'x' });
+                        let others = e.attributes().filter(|b| b.name() == a.name() && b.namespace() == Some(buf.as_str())).count();
+                        let r2 = e.attribute((buf.as_str(), a.name())).is_some();
+                        if !r1 || (r2 && others == 0) {
+                            anomalies += 1;
+                        }
+                        // asking the qualified name first must not change the answer for the bare name
+                        let bare = e.attribute(a.name());
+                        let _ = e.attribute((uri, a.name()));
+                        if e.attribute(a.name()) != bare {
+                            anomalies += 1;
+                        }
+                    }
+                }
+            }
+        }
+        writeln!(o, "{} LB {}", idx, anomalies).unwrap();
         // attribute equality over the first 12 attributes of the document
         let all: Vec<roxmltree::Attribute> = doc.descendants().flat_map(|n| n.attributes()).take(12).collect();
         let mut s = format!("{} LQ", idx);
@@ -556,6 +616,24 @@ fn dump_doc(idx: &str, flags: &str, input: &str, opt: ParsingOptions, doc: &Docu
                 if y.map(|y| y == x && y.node_type() == x.node_type() && y.tag_name() == x.tag_name() && y.text() == x.text())
                     .unwrap_or(false)
                 {
+                    ok_rt += 1;
+                }
+            }
+        }
+        // descendants() of each of the first 40 nodes (leaves included), and the last item after skipping k
+        let rt = |x: Node| -> bool {
+            d1.get_node(x.id()).map(|y| y == x && y.node_type() == x.node_type() && y.tag_name() == x.tag_name() && y.text() == x.text()).unwrap_or(false)
+        };
+        for x in d1.descendants().take(40) {
+            for y in x.descendants() {
+                if rt(y) {
+                    ok_rt += 1;
+                }
+            }
+        }
+        for k in 0..3usize {
+            if let Some(y) = d1.descendants().skip(k).last() {
+                if rt(y) && y.id().get() as usize == n - 1 {
                     ok_rt += 1;
                 }
             }
